@@ -21,54 +21,63 @@ Theorem C11_auxparse_fast_rtp_negative_header_size_panics : forall payload hs, (
 Proof. exact fast_negative_header_size_panics. Qed.
 Print Assumptions C11_auxparse_fast_rtp_negative_header_size_panics.
 
-(* exactly which combinations are refused: (1) Padding set and no byte after the header;
-   (2) the bytes left after removing the padding (its size = last byte when Padding is set) end before
-   the header does.  No other error exists. *)
+(* exactly which combinations are refused - three classes: (1) Padding set and no byte after the
+   header; (3) Padding set and the last byte (the padding size, which counts itself) is 0 - the check
+   added by the fix; (2) the bytes left after removing the padding end before the header does.
+   No other error exists. *)
 Theorem C11_auxparse_fast_rtp_unmarshal_errors : forall payload pad hs, (0 <= hs)%Z ->
   (fast_rtp_unmarshal payload pad hs = Err e_fast_pad_no_room <->
      pad = true /\ (Z.of_N (nlen payload) <= hs)%Z) /\
+  (fast_rtp_unmarshal payload pad hs = Err e_fast_zero_padding <->
+     pad = true /\ (hs < Z.of_N (nlen payload))%Z /\ nnth (nlen payload - 1) payload = Some 0) /\
   (fast_rtp_unmarshal payload pad hs = Err e_fast_end_before <->
      (pad = false /\ (Z.of_N (nlen payload) < hs)%Z) \/
      (pad = true /\ (hs < Z.of_N (nlen payload))%Z /\
-        exists ps, nnth (nlen payload - 1) payload = Some ps /\ (Z.of_N (nlen payload) - Z.of_N ps < hs)%Z)) /\
-  (forall e, fast_rtp_unmarshal payload pad hs = Err e -> e = e_fast_pad_no_room \/ e = e_fast_end_before).
+        exists ps, nnth (nlen payload - 1) payload = Some ps /\ ps <> 0 /\
+                   (Z.of_N (nlen payload) - Z.of_N ps < hs)%Z)) /\
+  (forall e, fast_rtp_unmarshal payload pad hs = Err e ->
+     e = e_fast_pad_no_room \/ e = e_fast_zero_padding \/ e = e_fast_end_before).
 Proof. exact fast_errors. Qed.
 Print Assumptions C11_auxparse_fast_rtp_unmarshal_errors.
 
-(* when it succeeds: PaddingSize is the last byte (0 without the flag) and the datagram is
-   header (hs bytes) ++ returned payload ++ padding (PaddingSize bytes), i.e. payload[hs : len-PaddingSize] *)
+(* when it succeeds: PaddingSize is the last byte (0 without the flag, at least 1 with it) and the
+   datagram is header (hs bytes) ++ returned payload ++ padding (PaddingSize bytes), i.e.
+   payload[hs : len-PaddingSize] *)
 Theorem C11_auxparse_fast_rtp_unmarshal_payload : forall payload pad hs f, (0 <= hs)%Z ->
   fast_rtp_unmarshal payload pad hs = Ok f ->
   pad_size payload pad = Some (fo_padsize f) /\
+  (pad = true -> 1 <= fo_padsize f) /\
   exists pre suf, payload = pre ++ fo_payload f ++ suf /\
                   Z.of_N (nlen pre) = hs /\ nlen suf = fo_padsize f /\
                   fo_payload f = ntake (nlen payload - fo_padsize f - Z.to_N hs) (ndrop (Z.to_N hs) payload).
 Proof. exact fast_payload. Qed.
 Print Assumptions C11_auxparse_fast_rtp_unmarshal_payload.
 
-(* relation with pion's rtp.Packet.Unmarshal (v1.10.5) on the same bytes: same packet whenever pion
-   accepts; when pion refuses, fastRTPUnmarshal refuses too EXCEPT for "padding bit set, last byte 0",
-   which pion refuses (errInvalidRTPPadding) and fastRTPUnmarshal accepts with PaddingSize 0. *)
-Theorem C11_auxparse_fast_rtp_vs_pion_partial : forall buf h n, rtp_header_unmarshal buf = Ok (h, n) ->
-  match pion_packet_unmarshal buf with
-  | Ok (h', f) => h' = h /\ fast_rtp_unmarshal buf (h_padding h) (Z.of_N n) = Ok f /\ (h_padding h = true -> fo_padsize f <> 0)
-  | Err e =>
-      (e = e_rtp_too_small /\ exists e', fast_rtp_unmarshal buf (h_padding h) (Z.of_N n) = Err e') \/
-      (e = e_rtp_bad_padding /\ h_padding h = true /\ nnth (nlen buf - 1) buf = Some 0 /\
-       fast_rtp_unmarshal buf true (Z.of_N n) = Ok (mkFast 0 (ntake (nlen buf - n) (ndrop n buf))))
-  | Panic | Diverge => False
+(* identical to pion's rtp.Packet.Unmarshal (v1.10.5) on the same bytes, for every input whose header
+   parses: same verdict; on success the same header, payload and padding size; on failure the same
+   kind of error ("buffer is too small" <-> errTooSmall, "invalid RTP padding" <-> errInvalidRTPPadding).
+   (Before the fix this held only outside "padding bit set, last byte 0": history/PreFix.v.) *)
+Theorem C11_auxparse_fast_rtp_agrees_with_pion : forall buf h n, rtp_header_unmarshal buf = Ok (h, n) ->
+  match pion_packet_unmarshal buf, fast_rtp_unmarshal buf (h_padding h) (Z.of_N n) with
+  | Ok (h', f'), Ok f => h' = h /\ f' = f
+  | Err e, Err e' =>
+      (e = e_rtp_too_small /\ (e' = e_fast_pad_no_room \/ e' = e_fast_end_before)) \/
+      (e = e_rtp_bad_padding /\ e' = e_fast_zero_padding)
+  | _, _ => False
   end.
-Proof. exact fast_vs_pion. Qed.
-Print Assumptions C11_auxparse_fast_rtp_vs_pion_partial.
+Proof. exact fast_agrees_with_pion. Qed.
+Print Assumptions C11_auxparse_fast_rtp_agrees_with_pion.
 
-(* ... and that exception exists (finding fast-rtp-accepts-zero-padding-size) *)
-Theorem C11_auxparse_fast_rtp_agrees_with_pion_refuted : exists buf h n f,
-  rtp_header_unmarshal buf = Ok (h, n) /\
-  fast_rtp_unmarshal buf (h_padding h) (Z.of_N n) = Ok f /\
-  fo_padsize f = 0 /\ h_padding h = true /\
-  pion_packet_unmarshal buf = Err e_rtp_bad_padding.
-Proof. exact fast_vs_pion_refuted. Qed.
-Print Assumptions C11_auxparse_fast_rtp_agrees_with_pion_refuted.
+(* ... and for EVERY datagram (header errors included) the read path header.Unmarshal ; fastRTPUnmarshal
+   and pion's Packet.Unmarshal give the same verdict and, on success, the same packet *)
+Theorem C11_auxparse_rtp_read_path_agrees_with_pion : forall buf,
+  match rtp_read_path buf, pion_packet_unmarshal buf with
+  | Ok (h, f), Ok (h', f') => h = h' /\ f = f'
+  | Err _, Err _ => True
+  | _, _ => False
+  end.
+Proof. exact read_path_agrees_with_pion. Qed.
+Print Assumptions C11_auxparse_rtp_read_path_agrees_with_pion.
 
 (* pion's rtp.Header.Unmarshal (CSRC list, extension header, one-byte / two-byte / RFC 3550 extension
    bodies) never panics and terminates on every byte string; the header size it returns lies in
@@ -155,6 +164,12 @@ Proof. vm_compute. reflexivity. Qed.
 Example ex_fast_padding_too_large :
   fast_rtp_unmarshal [160; 96; 0; 1; 0; 0; 0; 2; 0; 0; 0; 3; 170; 187; 4] true 12 = Err e_fast_end_before.
 Proof. vm_compute. reflexivity. Qed.
+(* regression (former finding fast-rtp-accepts-zero-padding-size): padding bit set, last byte 0 is refused,
+   by the read path as by pion *)
+Example ex_zero_padding_refused :
+  rtp_read_path [160; 96; 0; 1; 0; 0; 0; 2; 0; 0; 0; 3; 170; 187; 0] = Err (10 + e_fast_zero_padding) /\
+  pion_packet_unmarshal [160; 96; 0; 1; 0; 0; 0; 2; 0; 0; 0; 3; 170; 187; 0] = Err e_rtp_bad_padding.
+Proof. exact fast_zero_padding_refused. Qed.
 (* header with 1 CSRC and a one-byte extension (id 1, 2 bytes) + one padding byte *)
 Example ex_header_onebyte :
   rtp_header_unmarshal [145; 96; 0; 1; 0; 0; 0; 2; 0; 0; 0; 3; 0; 0; 0; 9; 190; 222; 0; 1; 17; 7; 8; 0; 55] =
